@@ -264,6 +264,8 @@ struct Stats {
     violating_evals: u64,
     #[serde(default)]
     layout_comparisons: u64,
+    #[serde(default)]
+    predict_layout_comparisons: u64,
     violations_not_stored: u64,
     child_processes: u64,
     child_aborts: u64,
@@ -291,6 +293,7 @@ impl Stats {
         }
         self.violating_evals += o.violating_evals;
         self.layout_comparisons += o.layout_comparisons;
+        self.predict_layout_comparisons += o.predict_layout_comparisons;
         self.violations_not_stored += o.violations_not_stored;
         self.child_processes += o.child_processes;
         self.child_aborts += o.child_aborts;
@@ -467,6 +470,7 @@ fn check_one<F: Float, L: Label + Default + std::fmt::Debug, D: ndarray::Data<El
     layout: &str,
     ds: &linfa::DatasetBase<ndarray::ArrayBase<D, ndarray::Ix2>, Array1<L>>,
     recs: &ndarray::ArrayBase<D, ndarray::Ix2>,
+    alt: &[(&'static str, ndarray::ArrayView2<F>)],
     data: &Data<L>,
     viols: &mut Vec<RawViol>,
     st: &mut Stats,
@@ -829,6 +833,23 @@ fn check_one<F: Float, L: Label + Default + std::fmt::Debug, D: ndarray::Data<El
         report("predict.wrong_length", format!("predict returned {} labels for {} rows", pred.len(), n), json!({}));
         return None;
     }
+    // the same logical rows handed to predict in other memory layouts must get the same labels
+    for (name, view) in alt {
+        st.predict_layout_comparisons += 1;
+        match guarded(|| tree.predict(view)) {
+            Ok(p2) => {
+                if p2.len() != n || p2.iter().zip(pred.iter()).any(|(a, b)| a != b) {
+                    let first = (0..n.min(p2.len())).find(|&i| p2[i] != pred[i]);
+                    report(
+                        "predict.layout_dependence",
+                        format!("predict on the training rows given as a {} returns other labels than on the records the tree was fitted from (first differing row {:?}: {:?} vs {:?}; {} vs {} labels)", name, first, first.map(|i| &p2[i]), first.map(|i| &pred[i]), p2.len(), n),
+                        json!({"predict_layout": name}),
+                    );
+                }
+            }
+            Err(p) => report("predict.layout_panic", format!("predict on the training rows given as a {} panicked: {}", name, p), json!({"predict_layout": name})),
+        }
+    }
     for i in 0..n {
         let obs = &pred[i];
         if !data.names.iter().enumerate().any(|(k, nm)| nm == obs && data.y.contains(&k)) {
@@ -898,6 +919,55 @@ fn run_typed<F: Float, L: Label + Default + std::fmt::Debug>(case: &Case, names:
     distinct.dedup();
     let data = Data { f32_subject: case.float == "f32", xs, y: &case.y, w, names, n_classes };
     let trace = std::env::var("C14_TRACE").is_ok();
+    // other memory layouts of the same logical records (built once per case)
+    let poison = F::cast(-12345.678);
+    let cm: Array2<F> = {
+        let mut a = Array2::zeros(ndarray::ShapeBuilder::f((n, d)));
+        a.assign(&recs);
+        a
+    };
+    let fm: Array2<F> = Array2::from_shape_fn((d, n), |(j, i)| recs[(i, j)]);
+    let rev: Array2<F> = Array2::from_shape_fn((n, d), |(i, j)| recs[(n - 1 - i, j)]);
+    let big: Array2<F> = Array2::from_shape_fn((2 * n, d), |(i, j)| if i % 2 == 0 { recs[(i / 2, j)] } else { poison });
+    let with_w = |dsx: linfa::DatasetBase<ndarray::ArrayView2<'_, F>, Array1<L>>| match &case.weights {
+        Some(wv) => dsx.with_weights(Array1::from(wv.clone())),
+        None => dsx,
+    };
+    struct Layouts<'a, F: Float, L: Label> {
+        cm: Array2<F>,
+        ds_cm: linfa::DatasetBase<Array2<F>, Array1<L>>,
+        ds_tv: linfa::DatasetBase<ndarray::ArrayView2<'a, F>, Array1<L>>,
+        ds_rv: linfa::DatasetBase<ndarray::ArrayView2<'a, F>, Array1<L>>,
+        ds_ev: linfa::DatasetBase<ndarray::ArrayView2<'a, F>, Array1<L>>,
+    }
+    let (lay, alt): (Option<Layouts<F, L>>, Vec<(&'static str, ndarray::ArrayView2<F>)>) = if case.layouts {
+        let mut ds_cm = linfa::DatasetBase::new(cm.clone(), targets.clone());
+        if let Some(wv) = &case.weights {
+            ds_cm = ds_cm.with_weights(Array1::from(wv.clone()));
+        }
+        let tv = fm.t();
+        let rv = rev.slice(ndarray::s![..;-1, ..]);
+        let ev = big.slice(ndarray::s![..;2, ..]);
+        assert!(tv == recs && rv == recs && ev == recs && cm == recs, "harness bug: layouts are not the same logical matrix");
+        (
+            Some(Layouts {
+                cm: cm.clone(),
+                ds_cm,
+                ds_tv: with_w(linfa::DatasetBase::new(tv.clone(), targets.clone())),
+                ds_rv: with_w(linfa::DatasetBase::new(rv.clone(), targets.clone())),
+                ds_ev: with_w(linfa::DatasetBase::new(ev.clone(), targets.clone())),
+            }),
+            vec![
+                ("standard-layout array", recs.view()),
+                ("column-major array", cm.view()),
+                ("transposed view of a feature-major array", tv),
+                ("reversed-row view of a reversed copy", rv),
+                ("every-second-row view of a larger array (filler rows hold poison values)", ev),
+            ],
+        )
+    } else {
+        (None, Vec::new())
+    };
     for (ci, cfg) in case.configs.iter().enumerate() {
         if skip.contains(&ci) {
             continue;
@@ -909,31 +979,24 @@ fn run_typed<F: Float, L: Label + Default + std::fmt::Debug>(case: &Case, names:
             eprintln!("TRACE {} {} {} x={:?} y={:?} w={:?} cfg#{} {:?}", case.family, case.float, case.label_type, case.x, case.y, case.weights, ci, cfg);
         }
         st.distinct_class_counts[distinct.len().min(6)] += 1;
-        let standard = check_one(case, ci, cfg, "standard layout", &ds, &recs, &data, &mut viols, &mut st);
-        if case.layouts {
-            // the same logical records in two other contiguous memory layouts: every oracle again, and
+        let standard = check_one(case, ci, cfg, "standard layout", &ds, &recs, &alt, &data, &mut viols, &mut st);
+        if let Some(lay) = &lay {
+            // the same logical records in four other memory layouts: every oracle again on each, and
             // the fitted tree must be the very same tree
-            let mut cm: Array2<F> = Array2::zeros(ndarray::ShapeBuilder::f((n, d)));
-            cm.assign(&recs);
-            let mut ds_cm = linfa::DatasetBase::new(cm.clone(), targets.clone());
-            let fm: Array2<F> = Array2::from_shape_fn((d, n), |(j, i)| recs[(i, j)]);
-            let tv = fm.t();
-            let mut ds_tv = linfa::DatasetBase::new(tv.clone(), targets.clone());
-            if let Some(wv) = &case.weights {
-                ds_cm = ds_cm.with_weights(Array1::from(wv.clone()));
-                ds_tv = ds_tv.with_weights(Array1::from(wv.clone()));
-            }
             let others = [
-                ("column-major owned array", check_one(case, ci, cfg, "column-major owned array", &ds_cm, &cm, &data, &mut viols, &mut st)),
-                ("transposed view of a feature-major array", check_one(case, ci, cfg, "transposed view of a feature-major array", &ds_tv, &tv, &data, &mut viols, &mut st)),
+                ("column-major owned array", check_one(case, ci, cfg, "column-major owned array", &lay.ds_cm, &lay.cm, &alt, &data, &mut viols, &mut st)),
+                ("transposed view of a feature-major array", check_one(case, ci, cfg, "transposed view of a feature-major array", &lay.ds_tv, lay.ds_tv.records(), &alt, &data, &mut viols, &mut st)),
+                ("reversed-row view of a reversed copy", check_one(case, ci, cfg, "reversed-row view of a reversed copy", &lay.ds_rv, lay.ds_rv.records(), &alt, &data, &mut viols, &mut st)),
+                ("every-second-row view of a larger array", check_one(case, ci, cfg, "every-second-row view of a larger array", &lay.ds_ev, lay.ds_ev.records(), &alt, &data, &mut viols, &mut st)),
             ];
             for (name, other) in others {
                 st.layout_comparisons += 1;
                 if let (Some(a), Some(b)) = (&standard, &other) {
                     if a != b && !viols.iter().any(|v| v.sig == "fit.layout_dependence") {
+                        let cut = |t: &String| -> String { t.chars().take(1200).collect() };
                         viols.push(RawViol {
                             sig: "fit.layout_dependence".into(),
-                            what: format!("[config #{} {:?}] the same records fitted from a {} give a different tree than from a standard-layout array: standard {} | other {}", ci, cfg, name, a, b),
+                            what: format!("[config #{} {:?}] the same records fitted from a {} give a different tree than from a standard-layout array: standard {} | other {}", ci, cfg, name, cut(a), cut(b)),
                             at: json!({"config_index": ci, "config": cfg, "layout": name}),
                         });
                     }
@@ -1529,6 +1592,7 @@ fn main() {
     ctx.extra("trees_with_a_split_whose_mean_decreases_sum_below_1e-5", json!(t.trees_with_split_and_total_decrease_below_1e_5));
     ctx.extra("evaluations_with_a_violation", json!(t.violating_evals));
     ctx.extra("trees_compared_with_the_standard_layout_tree", json!(t.layout_comparisons));
+    ctx.extra("predict_calls_on_other_layouts_compared", json!(t.predict_layout_comparisons));
     ctx.extra("violations_counted_but_not_stored_beyond_2_per_signature_and_case", json!(t.violations_not_stored));
     ctx.extra("worker_processes_started", json!(t.child_processes));
     ctx.extra("worker_processes_killed_by_stack_overflow", json!(t.child_aborts));
